@@ -391,12 +391,20 @@ def _plugin_manager():
     return pm
 
 
+def _spell(method, k):
+    """One of the valid spellings of an estimator method name (seeded change C01_k)."""
+    return (method, method.upper(), "default/" + method, "Default/" + method.capitalize(),
+            method.capitalize())[k % 5]
+
+
 def build_config(case):
     cfg = {
         "variables": {"initial_values": [0.0] * len(case["vectors"][0])},
         "realizations": {"weights": case["w"]},
         "objectives": {"weights": case["ow"]},
-        "function_estimators": [{"method": m} for m in case["ests"]],
+        # method names are case-insensitive and may carry the plug-in prefix: spell them in several ways
+        "function_estimators": [{"method": _spell(m, len(case["vectors"]) + len(case["w"]) + i)}
+                                for i, m in enumerate(case["ests"])],
         "realization_filters": case["filters"],
     }
     if case.get("via") == "combined":
